@@ -2,16 +2,17 @@ from props_common import COMMON_ASSUME
 
 PROP = {
     "title": "Document notifications take effect in message order",
-    "engine": "E2",
+    "engine": "E2+E3",
+    "needs_repo_bins": True,
     "level": "exploration",
-    "technique": "runtime monitor over the real LSP dispatch (SimServer, virtual time, seeded schedule points): final analysed text / open state per document vs a reference model folded over the notification history; unique text per write",
+    "technique": "runtime monitor over the real LSP dispatch (SimServer, virtual time, seeded schedule points): final analysed text / open state per document vs a reference model folded over the notification history; unique text per write; plus the shipped emmylua_ls binary over real stdio with document notifications sent while the workspace is being initialised (queued messages), documentSymbol as the protocol-boundary view",
     "design_ref": "§4 C27",
     "rule": "cases = generated scripts of 4-24 messages over 1-4 documents (on disk / not): didOpen/didChange/didClose/reopen respecting the protocol, interleaved with requests, pumps and virtual-time advances, a quarter of them without any pause; each script runs under 3 schedule seeds; "
             "at quiescence (120 virtual seconds without server output) every document is compared with the model (analysis text, open flag, documentSymbol view); distinct = hash of the recorded lock-event interleaving; non-trivial = >= 3 document notifications",
     "min_nontrivial": {"quick": 1500, "thorough": 50000},
     "max_secs": {"quick": 600, "thorough": 1500},
-    "require_clauses": ["final-state-checked", "lock-events-observed"],
+    "require_clauses": ["final-state-checked", "lock-events-observed", "stdio:final-state-checked", "stdio:document-views-checked"],
     "assumptions": COMMON_ASSUME + ["messages are delivered through on_notification_handler/on_request_handler exactly as ServerMessageProcessor::handle_message does; tasks run on a current-thread runtime, so the interleavings are those reachable by cooperative scheduling at await points (lock acquisitions yield a seeded number of times)"],
     "level_text": "Real dispatch + real handlers + real analysis; the only simulated parts are the transport and the clock. ~7k (quick) script executions, each checked against the reference model at quiescence.",
-    "level_note": "True multi-threaded preemption between await points is not produced by the simulator; settled = 120 virtual seconds of silence.",
+    "level_note": "True multi-threaded preemption between await points is not produced by the simulator (settled = 120 virtual seconds of silence); the stdio part (~50 quick / ~640 thorough server processes) runs the real multi-threaded runtime but only sees the documentSymbol view of open documents.",
 }
